@@ -218,6 +218,12 @@ def run_c08(tier, seed):
         if (not ok and got != {'err': 'MosInvalidXML'}) or (ok and got == {'err': 'MosInvalidXML'}):
             oc.failing.append({'kind': 'classify', 'text': text, 'label': 'malformed: ' + lbl,
                                'spec': 'malformed XML raises MosInvalidXML (oracle: expat)', 'expat_accepts': ok, 'impl': got})
+    # static tie: the tables in the Python source, entry by entry and in order, against the model's
+    from . import static_tables, impl as _impl
+    probs = static_tables.check(_impl.REPO)
+    oc.extra['static_tables'] = 'tag_class_map (16 entries, order) and the roElementAction table (10 entries) read from the source with ast match the Lean tables; exception hierarchy as assumed' if not probs else probs
+    for pr in probs:
+        oc.disagreements.append({'kind': 'static', 'what': 'static comparison of the classification tables / exception hierarchy', 'problem': pr})
     oc.exhaustive = True
     oc.extra['warning_filters'] = ['ignore', 'default', 'error']
     oc.extra['sources'] = ['str', 'bytes (utf-8, iso-8859-1, utf-16)', 'file']
